@@ -30,31 +30,89 @@ pub fn failing_primer(case: &mut StepCase, e: &mut Ent) {
     let reg = e.pick(&UNMAPPED);
     let w2 = |w: u16| vec![(w >> 8) as u8, w as u8];
     let p = match e.below(6) {
-        0 | 1 => Primer { pc: e.pick(&[0x5ffffeu32, 0x0000fe]), code: w2(e.pick(&PREFIXES)), reg },
+        0 | 1 => Primer { pc: e.pick(&[0x5ffffeu32, 0x0000fe]), code: w2(e.pick(&PREFIXES)), er: [reg; 8] },
         2 => {
             // the third word is missing
             let (a, b) = e.pick(&[(0x0100u16, 0x6b20u16), (0x0100, 0x6ba0), (0x7800, 0x6a20), (0x7800, 0x6aa0), (0x0140, 0x6b20), (0x0100, 0x7800), (0x01f0, 0x6400)]);
             let mut c = w2(a);
             c.extend(w2(b));
-            Primer { pc: e.pick(&[0x5ffffcu32, 0x0000fc]), code: c, reg }
+            Primer { pc: e.pick(&[0x5ffffcu32, 0x0000fc]), code: c, er: [reg; 8] }
         }
-        3 => Primer { pc: 0x5f0000 + 2 * e.below(0x100), code: w2(e.pick(&REJECTED)), reg },
+        3 => Primer { pc: 0x5f0000 + 2 * e.below(0x100), code: w2(e.pick(&REJECTED)), er: [reg; 8] },
         4 => {
             let c = e.pick(&FAULTING);
             let code = if c > 0xffff { c.to_be_bytes().to_vec() } else { w2(c as u16) };
-            Primer { pc: 0x5f0000 + 2 * e.below(0x100), code, reg }
+            Primer { pc: 0x5f0000 + 2 * e.below(0x100), code, er: [reg; 8] }
         }
         _ => {
             if e.chance(1, 2) {
                 // opcode fetch from unmapped space
-                Primer { pc: e.pick(&[0x600000u32, 0x000100, 0x800000, 0xffffea]), code: vec![], reg }
+                Primer { pc: e.pick(&[0x600000u32, 0x000100, 0x800000, 0xffffea]), code: vec![], er: [reg; 8] }
             } else {
                 // MES call with an unsupported number
-                Primer { pc: 0x5f0000 + 2 * e.below(0x100), code: vec![0x57, 0x00], reg }
+                Primer { pc: 0x5f0000 + 2 * e.below(0x100), code: vec![0x57, 0x00], er: [reg; 8] }
             }
         }
     };
     case.primer = Some(p);
+}
+
+/// One case in 6 whose instruction has a register-relative or absolute memory operand is preceded, on the same
+/// emulator and with the same registers, by a *sibling* encoding: the same displacement number in the other width
+/// (d:16 H'9000 means -H'7000, d:24 H'009000 means +H'9000), the same effective address through the other width,
+/// @ERn <-> @(0,ERn), @aa:16 <-> @aa:24. Two encodings that look alike must not be mistaken for one another by
+/// anything the implementation remembers between instructions.
+pub fn sibling_primer(case: &mut StepCase, e: &mut Ent) {
+    use crate::refmodel::insn::*;
+    if case.primer.is_some() || case.irq.is_some() {
+        return;
+    }
+    let Class::Impl(insn) = decode_bytes(&case.code).class else { return };
+    let Some(ea) = insn.mem_ea() else { return };
+    if !e.chance(1, 6) {
+        return;
+    }
+    let k = e.below(3);
+    let sib = match ea {
+        Ea::D16(r, d) => match k {
+            0 => Ea::D24(r, d as u32),                           // numerically equal, other meaning when bit 15 is set
+            1 => Ea::D24(r, (d as i16 as i32 as u32) & 0xff_ffff), // same effective address
+            _ => Ea::D16(r, d ^ 0x8000),
+        },
+        Ea::D24(r, d) => match k {
+            0 => Ea::D16(r, d as u16),
+            1 => Ea::D24(r, d ^ 0x80_0000),
+            _ => Ea::D24(r, d ^ 0x00_8000),
+        },
+        Ea::Ind(r) => match k {
+            0 => Ea::D16(r, 0),
+            1 => Ea::D24(r, 0),
+            _ => Ea::D16(r, 0xffff),
+        },
+        Ea::A16(a) => match k {
+            0 => Ea::A24(a as u32),
+            _ => Ea::A24((a as i16 as i32 as u32) & 0xff_ffff),
+        },
+        Ea::A24(a) => Ea::A16(a as u16),
+        Ea::A8(a) => Ea::A16(a as u16),
+        _ => return,
+    };
+    let sib_insn = match insn {
+        Insn::Load { sz, d, .. } => Insn::Load { sz, ea: sib, d },
+        Insn::Store { sz, s, .. } => Insn::Store { sz, s, ea: sib },
+        Insn::StcW { .. } => Insn::StcW { ea: sib },
+        // bit instructions have @ERd / @aa:8 only: a byte load through the sibling mode
+        Insn::Bit { .. } => Insn::Load { sz: Sz::B, ea: sib, d: 0 },
+        _ => return,
+    };
+    if matches!((sib_insn, sib), (Insn::Load { sz: Sz::L, .. }, Ea::A8(_)) | (Insn::Store { sz: Sz::L, .. }, Ea::A8(_))) {
+        return;
+    }
+    let code = encode(&sib_insn);
+    if !matches!(decode_bytes(&code).class, Class::Impl(_)) {
+        return;
+    }
+    case.primer = Some(Primer { pc: case.pc & !1, code, er: case.er });
 }
 
 pub type Builder<'a, T> = &'a dyn Fn(&mut Ent) -> (StepCase, T);
@@ -97,10 +155,14 @@ impl<'a, T> Drive<'a, T> {
                     case.patches.extend(e.env_noise());
                     odd_pc(&mut case, &mut e);
                     failing_primer(&mut case, &mut e);
+                    let failing = case.primer.is_some();
+                    sibling_primer(&mut case, &mut e);
                     let mut st = w.stats.borrow_mut();
                     st.class_n(&format!("enumerated: {}", sub), 1);
-                    if case.primer.is_some() {
+                    if failing {
                         st.class("preceded by a failing step on the same emulator");
+                    } else if case.primer.is_some() {
+                        st.class("preceded by a sibling encoding (same registers) on the same emulator");
                     }
                     let r = ev.eval(&mut w.emu.borrow_mut(), &mut st, &case, true, &mut |c, j, s| (self.classify)(c, j, &tag, s));
                     if r.is_err() {
@@ -117,9 +179,13 @@ impl<'a, T> Drive<'a, T> {
                     case.patches.extend(e.env_noise());
                     odd_pc(&mut case, &mut e);
                     failing_primer(&mut case, &mut e);
+                    let failing = case.primer.is_some();
+                    sibling_primer(&mut case, &mut e);
                     let mut st = w.stats.borrow_mut();
-                    if case.primer.is_some() && !shrinking {
+                    if failing && !shrinking {
                         st.class("preceded by a failing step on the same emulator");
+                    } else if case.primer.is_some() && !shrinking {
+                        st.class("preceded by a sibling encoding (same registers) on the same emulator");
                     }
                     ev.eval(&mut w.emu.borrow_mut(), &mut st, &case, !shrinking, &mut |c, j, s| (self.classify)(c, j, &tag, s))
                 });
@@ -130,6 +196,7 @@ impl<'a, T> Drive<'a, T> {
                     case.patches.extend(e.env_noise());
                     odd_pc(&mut case, &mut e);
                     failing_primer(&mut case, &mut e);
+                    sibling_primer(&mut case, &mut e);
                     let mut st = w.stats.borrow_mut();
                     st.failures.retain(|f| f.signature != sig);
                     let _ = ev.eval(&mut w.emu.borrow_mut(), &mut st, &case, false, &mut |_, _, _| {});
